@@ -193,6 +193,8 @@ struct SCtx {
 	int      must;
 	// at most one pending receive
 	UAio    *w;
+	UAio    *spare;     // the aio of the previous receive, reused (timeout set only when it changes)
+	int      spare_tmo;
 	uint64_t w_inv_ms;
 	int      w_tmo;     // -1 infinite
 	int      w_first_sv; // c.cur when invoked
@@ -407,7 +409,9 @@ poll_ctx(SWorld &w, size_t ci)
 		UAio *u = c.w;
 		c.w     = NULL;
 		judge_recv(w, ci, u, c.w_inv_ms, c.w_tmo, c.w_first_sv, c.w_cancel_req, c.w_superseded);
-		delete u;
+		delete c.spare;
+		c.spare     = u;
+		c.spare_tmo = c.w_tmo;
 		return;
 	}
 	if (c.cur < 0) {
@@ -525,8 +529,18 @@ op_recv(SWorld &w, size_t ci, int tmo)
 		return;
 	bool  live_before = sv_live_now(w, c);
 	int   must_before = c.must;
-	UAio *u           = new UAio();
-	nng_aio_set_timeout(u->aio, tmo < 0 ? NNG_DURATION_INFINITE : (nng_duration) tmo);
+	UAio *u;
+	if (c.spare != NULL && W(0, 2) != 0) {
+		// one aio used again and again, as applications do
+		u       = c.spare;
+		c.spare = NULL;
+		if (tmo != c.spare_tmo)
+			nng_aio_set_timeout(u->aio, tmo < 0 ? NNG_DURATION_INFINITE : (nng_duration) tmo);
+		sim_probe("c07_recv_aio_reused");
+	} else {
+		u = new UAio();
+		nng_aio_set_timeout(u->aio, tmo < 0 ? NNG_DURATION_INFINITE : (nng_duration) tmo);
+	}
 	sim_event("recv ctx%zu timeout %d", ci, tmo);
 	c.w            = u;
 	c.w_inv_ms     = sim_now_ms();
@@ -802,6 +816,7 @@ surv_run(Params *p)
 		c.cur     = -1;
 		c.must    = 0;
 		c.w       = NULL;
+		c.spare   = NULL;
 		nng_duration d = 0;
 		if (i > 0) {
 			MUST(nng_ctx_open(&c.ctx, w.sock));
@@ -966,6 +981,8 @@ surv_run(Params *p)
 		MUST(nng_socket_close(rd.s));
 	}
 	MUST(nng_socket_close(w.sock));
+	for (auto &c : w.ctxs)
+		delete c.spare;
 }
 
 SCENARIO(c07_surv, "C07", net_cfg, surv_run);
